@@ -596,6 +596,49 @@ Definition gfilter_in_enum (gf : gfilter) : bool :=
   | _ => true
   end.
 
+(* ---- coded concepts behind the abstract integers -------------------------------------------------------- *)
+(* What pydicom Code.__eq__ / highdicom CodedConcept.__eq__ (sr/coding.py) compare: the code value, the coding
+   scheme designator and the coding scheme VERSION (None is a version of its own: an un-versioned code is not
+   equal to the same value in version "2.1", nor "2.1" to "3.0"); the code meaning is not compared.  (The
+   SRT -> SCT canonicalisation pydicom applies before comparing is done by the harness when it numbers the
+   codes.)  Every CODE value / concept name of the item model is the key `cc_key c` of such a triple; keys of
+   un-versioned codes of scheme 0 are the plain numbers used everywhere else in this file (ck v 0 None = v). *)
+Record ccode := CC { cc_value : Z; cc_scheme : Z; cc_version : option Z }.
+Definition optz_eqb (a b : option Z) : bool :=
+  match a, b with None, None => true | Some x, Some y => x =? y | _, _ => false end.
+Definition cc_eqb (a b : ccode) : bool :=
+  (cc_value a =? cc_value b) && (cc_scheme a =? cc_scheme b) && optz_eqb (cc_version a) (cc_version b).
+Definition ck (v s : Z) (ver : option Z) : Z :=
+  v + 100000 * (s + 10 * match ver with None => 0 | Some k => k + 1 end).
+Definition cc_key (c : ccode) : Z := ck (cc_value c) (cc_scheme c) (cc_version c).
+(* the range on which the numbering is injective (all the harness draws from) *)
+Definition cc_ok (c : ccode) : bool :=
+  (0 <=? cc_value c) && (cc_value c <? 100000) && (0 <=? cc_scheme c) && (cc_scheme c <? 10) &&
+  match cc_version c with None => true | Some k => 0 <=? k end.
+Definition optcc_ok (o : option ccode) : bool := match o with None => true | Some c => cc_ok c end.
+(* the coded concepts a group was constructed with / a filter was given as *)
+Definition coded_group (g : group) (gfind : option ccode) (gsites : list ccode) : Prop :=
+  g_finding g = option_map cc_key gfind /\ optcc_ok gfind = true /\
+  g_sites g = map cc_key gsites /\ forallb cc_ok gsites = true.
+Definition coded_filter (f : filt) (ffind fsite : option ccode) : Prop :=
+  f_finding f = option_map cc_key ffind /\ optcc_ok ffind = true /\
+  f_site f = option_map cc_key fsite /\ optcc_ok fsite = true.
+(* "satisfies the finding / finding site / tracking uid filters", stated on coded concepts *)
+Definition sat_common_cc (ffind fsite : option ccode) (ftuid : option Z)
+                         (gfind : option ccode) (gsites : list ccode) (gtuid : Z) : bool :=
+  (match ffind with None => true | Some c => match gfind with Some c' => cc_eqb c' c | None => false end end) &&
+  (match fsite with None => true | Some c => existsb (fun s => cc_eqb s c) gsites end) &&
+  (match ftuid with None => true | Some u => gtuid =? u end).
+
+(* `sat` / `sat_image` with the three code filters read on coded concepts (cf / cs: the codes each group
+   was constructed with) *)
+Definition sat_cc (f : filt) (ffind fsite : option ccode) (cf : group -> option ccode)
+                  (cs : group -> list ccode) (g : group) : bool :=
+  sat_common_cc ffind fsite (f_tuid f) (cf g) (cs g) (g_tuid g) && sat_reftype f g && sat_gt f g && sat_uid f g.
+Definition sat_image_cc (f : filt) (ffind fsite : option ccode) (cf : group -> option ccode)
+                  (cs : group -> list ccode) (g : group) : bool :=
+  sat_common_cc ffind fsite (f_tuid f) (cf g) (cs g) (g_tuid g) && sat_uid f g.
+
 (* ---- boundary functions ------------------------------------------------------------------------------------ *)
 Definition voptz (o : option Z) : val := vopt VZ o.
 Definition vpairs (l : list (Z * Z)) : val := VL (map (fun p => VL [VZ (fst p); VZ (snd p)]) l).
